@@ -52,6 +52,18 @@ MUTATION_DRILLS = [
      "detected": True,
      "fired": "VIOLATION with failing input (roundtrip:key:*, e.g. `K 48 1543512063` parses back with modifier 1543512059; 13232 "
               "oracle failures, 16565 differences)"},
+    {"mutation": "key_table.cc RimeGetKeycodeByName: `!strcmp(name, key_names + p->offset)` -> `!strncmp(name, key_names + p->offset, 27)` "
+                 "(27 = length of the longest name: every exact name still works, round trips intact; seeded change missed before the "
+                 "near-miss stream existed)",
+     "detected": True,
+     "fired": "VIOLATION with failing input (lookup-accepts-unknown:key, replay `N 477265...7e`: RimeGetKeycodeByName("
+              "'Greek_upsilonaccentdieresis~') = 0x7ba; also parser-accepts-unknown:key 'Greek_upsilonaccentdieresis~' and "
+              "parser-accepts-unknown:seq 'a{Greek_upsilonaccentdieresis~}b'; 50 oracle failures / 50 differences, all in near_miss)"},
+    {"mutation": "key_table.cc RimeGetModifierByName: `!strcmp(name, modifier_name[i])` -> `!strncmp(name, modifier_name[i], "
+                 "strlen(modifier_name[i]))` (prefix match)",
+     "detected": True,
+     "fired": "VIOLATION with failing input (lookup-accepts-unknown:modifier, replay `M 536869667478`: RimeGetModifierByName('Shiftx') "
+              "= 0x1; 528 oracle failures: near_miss 519, parse_rand 8, table 1)"},
     {"mutation": "key_table.cc: rename key_names -> key_names2 (behaviour unchanged; translator no longer finds the declaration)",
      "detected": True,
      "fired": "VIOLATION ... no-failing-input-found (proof:Properties_C19, translator refused -> translation_ok = false -> sweep false)"},
@@ -247,6 +259,37 @@ def gen_cases(ctx, t, dom):
             add("parse_rand", "Q %s" % hx(bytes(rnd.choice(alpha) for _ in range(rnd.randint(4, 40)))))
             add("parse_rand", "P %s" % hx(bytes(rnd.choice(alpha) for _ in range(rnd.randint(4, 40)))))
 
+    # --- near misses of EVERY key name and EVERY modifier name of the translated tables, through every entry point:
+    #     a lookup that compares too little (prefix, case-insensitive, trimmed ...) accepts one of these
+    def variants(nm):
+        vs = [nm + b"~", nm + b"x", nm + b"0", nm + b"xyz" * 11, nm[:-1], nm + b" ", b" " + nm]
+        i = rnd.randrange(len(nm))
+        c = nm[i]
+        vs.append(nm[:i] + bytes([c + 1 if c < 0x7a else c - 1]) + nm[i + 1:])
+        alpha_pos = [j for j in range(len(nm)) if chr(nm[j]).isalpha()]
+        if alpha_pos:
+            j = rnd.choice((alpha_pos[0], alpha_pos[-1], rnd.choice(alpha_pos)))
+            vs.append(nm[:j] + bytes([nm[j] ^ 0x20]) + nm[j + 1:])
+        return vs
+
+    some_mod = lambda: rnd.choice(mod_list)
+    for nm in name_list:
+        for v in variants(nm):
+            add("near_miss", "N %s" % hx(v))
+            add("near_miss", "M %s" % hx(v))
+            add("near_miss", "P %s" % hx(v))
+            add("near_miss", "P %s" % hx(some_mod() + b"+" + v))
+            add("near_miss", "Q %s" % hx(b"a{" + v + b"}b"))
+            add("near_miss", "Q %s" % hx(b"{" + some_mod() + b"+" + v + b"}"))
+    for nm in mod_list:
+        for v in variants(nm):
+            add("near_miss", "M %s" % hx(v))
+            add("near_miss", "N %s" % hx(v))
+            add("near_miss", "P %s" % hx(v + b"+a"))
+            add("near_miss", "P %s" % hx(some_mod() + b"+" + v + b"+Return"))
+            add("near_miss", "Q %s" % hx(b"a{" + v + b"+a}b"))
+            add("near_miss", "Q %s" % hx(b"{" + v + b"+" + some_mod() + b"+space}"))
+
     # --- the witnesses of C19_outside_domain_refuted and the NUL-cut observation, replayed on the real code
     for line in ["K %d 0" % dom.void, "K 97 16777216", "K 4660 0", "P %s" % hx(b"Shift\0junk+a"), "Q %s" % hx(b"a{"),
                  "Q %s" % hx(b"{}"), "Q %s" % hx(b"{a"), "S 1 97 16777216"]:
@@ -276,11 +319,29 @@ def oracle(dom, stream, line, obs):
             if o[2:] != want:
                 return ("roundtrip:seq", "the sequence %s is written %r and parses back as ok=%s %s"
                         % (evs, bytes.fromhex(o[1] if o[1] != "-" else ""), o[2], " ".join(o[3:])))
+    elif op == "N":
+        text = bytes.fromhex(f[1]) if f[1] != "-" else b""
+        if b"\0" not in text and int(o[1]) != dom.void and int(o[1]) not in dom.key_names.get(text, []):
+            return ("lookup-accepts-unknown:key", "RimeGetKeycodeByName(%r) = 0x%x, but no entry of keys_by_keyval has that name "
+                                                  "with that key value" % (text, int(o[1])))
+    elif op == "M":
+        text = bytes.fromhex(f[1]) if f[1] != "-" else b""
+        if b"\0" not in text and int(o[1]) != 0 and (text not in dom.mod_names or int(o[1]) != 1 << dom.mod_names[text]):
+            return ("lookup-accepts-unknown:modifier", "RimeGetModifierByName(%r) = 0x%x, but no modifier slot has that name "
+                                                       "at that bit" % (text, int(o[1])))
     elif op == "P":
         text = bytes.fromhex(f[1]) if f[1] != "-" else b""
         if o[1] == "1" and b"\0" not in text:
             if len(text) == 0 or (len(text) >= 2 and not dom.key_text_known(text)):
                 return ("parser-accepts-unknown:key", "KeyEvent::Parse accepted %r, which names an unknown key or modifier" % text)
+            if len(text) >= 2:
+                toks = text.split(b"+")
+                want_m = 0
+                for tk in toks[:-1]:
+                    want_m |= 1 << dom.mod_names[tk]
+                if int(o[3]) != want_m or int(o[2]) not in dom.key_names[toks[-1]]:
+                    return ("parser-wrong-value:key", "KeyEvent::Parse(%r) gave keycode=%s modifier=%s, not what the names stand for"
+                            % (text, o[2], o[3]))
     elif op == "Q":
         text = bytes.fromhex(f[1]) if f[1] != "-" else b""
         if o[1] == "1" and b"\0" not in text:
@@ -295,6 +356,8 @@ def oracle(dom, stream, line, obs):
 
 def nontrivial(dom, stream, line, obs):
     f, o = line.split(), obs.split()
+    if stream == "near_miss":
+        return len(f[1]) >= 4
     if f[0] == "K":
         k, m = int(f[1]), int(f[2])
         return dom.representable(k, m) and (m != 0 or len(dom.names_of[k][0]) >= 2)
@@ -433,7 +496,11 @@ def run(ctx):
                 "named bit, random named masks} (in domain) and x masks with unnamed bits / key codes without a name (outside: model "
                 "agreement only); random sequences of representable events (lengths 0..25) and sequences with unrepresentable events "
                 "(outside); KeyEvent::Parse and KeySequence::Parse on every string of length <= %d over {a,A,+,{,},0,space,S,h,i,f,t} "
-                "and on random texts assembled from modifier names, key names, junk, NUL and high bytes.  Non-trivial = key event in "
+                "and on random texts assembled from modifier names, key names, junk, NUL and high bytes; a near-miss stream from the translated "
+                "tables: EVERY key name and EVERY modifier name with one character appended (~ x 0), a long suffix, the last character "
+                "dropped, a blank before/after, one character changed, one letter case-flipped, each through RimeGetKeycodeByName, "
+                "RimeGetModifierByName, KeyEvent::Parse (alone and behind a `Mod+` prefix) and KeySequence::Parse (inside braces).  "
+                "Non-trivial = any near-miss text of >= 2 bytes; key event in "
                 "the domain with a non-zero mask or a name of >= 2 characters; sequence of >= 2 events whose text has a brace group; "
                 "parser text of >= 2 bytes that was accepted or contains '+' or '{'." % (ctx.seed, 4 if ctx.tier == "thorough" else 3),
         "distribution": dist, "per_stream": per_stream,
